@@ -1568,3 +1568,99 @@ def selective_publishing(pkg, methods, internal=False):
     if internal:
         sel["generate_omitted_as_internal"] = True
     return {"library_settings": [{"version": pkg, "python_settings": {"common": {"selective_gapic_generation": sel}}}]}
+
+
+def selective_api(rng, name):
+    """Type graphs with sharing, nesting, recursion, enum-only files and resource references over two services (C16)."""
+    api = Api(name)
+    tags = api.tags
+    ver = "v1"
+    pkg = f"vp.{name}.{ver}"
+    P = "." + pkg
+    dirp = f"vp/{name}/{ver}"
+    fe = File(f"{dirp}/states.proto", pkg, deps=[])            # enums only
+    fs = File(f"{dirp}/shared.proto", pkg, deps=list(STD_DEPS) + [fe.pb.name])
+    fo = File(f"{dirp}/ops_meta.proto", pkg, deps=list(STD_DEPS))   # LRO types, not imported by the service file
+    f = File(f"{dirp}/{name}.proto", pkg, deps=list(STD_DEPS) + [fe.pb.name, fs.pb.name])
+    for x in (fe, fs, fo, f):
+        api.add(x)
+    st = fe.enum("ShelfState", "SHELF_STATE_UNSPECIFIED", "OPEN", "CLOSED")
+    gn = fe.enum("Genre", "GENRE_UNSPECIFIED", "FICTION", "SCIENCE")
+    un = fe.enum("UnusedEnum", "UNUSED_ENUM_UNSPECIFIED", "U1")
+    meta = fo.message("JobMeta")
+    meta.field("percent", "int32")
+    res = fo.message("JobResult")
+    res.field("summary", "string")
+    lonely = fo.message("LonelyMeta")
+    lonely.field("x", "string")
+    # shared types
+    tag = fs.message("Tag")
+    tag.field("key", "string")
+    tag.field("genre", gn)
+    outer = fs.message("Outer")
+    outer.field("label", "string")
+    inner = outer.nested("Inner")
+    inner.field("depth", "int32")
+    inner.field("tags", P + ".Tag", repeated=True)
+    deep = inner.nested("Deep")
+    deep.field("v", "string")
+    ik = outer.enum("Kind", "KIND_UNSPECIFIED", "SMALL", "LARGE")
+    outer.field("kind", ik)
+    tree = fs.message("Tree")
+    tree.field("value", "string")
+    tree.field("children", P + ".Tree", repeated=True)
+    tree.map("by_name", "string", P + ".Tree")
+    unused = fs.message("UnusedShared")
+    unused.field("x", "string")
+    # resources
+    shelf = f.message("Shelf")
+    shelf.resource(f"{name}.googleapis.com/Shelf", "shelves/{shelf}")
+    shelf.field("name", "string")
+    shelf.field("state", st)
+    shelf.field("outer", P + ".Outer")
+    book = f.message("Book")
+    book.resource(f"{name}.googleapis.com/Book", "shelves/{shelf}/books/{book}")
+    book.field("name", "string")
+    book.field("genre", gn)
+    book.field("tags", P + ".Tag", repeated=True)
+    book.field("tree", P + ".Tree")
+    author = f.message("Author")
+    author.resource(f"{name}.googleapis.com/Author", "authors/{author}")
+    author.field("name", "string")
+    author.field("deep", P + ".Outer.Inner.Deep")
+    s1 = f.service("Library", host=f"{name}.googleapis.com")
+    s2 = f.service("Registry", host=f"{name}.googleapis.com")
+    q = f.message("GetShelfRequest")
+    q.field("name", "string", ref=f"{name}.googleapis.com/Shelf")
+    s1.rpc("GetShelf", P + ".GetShelfRequest", P + ".Shelf", http={"get": "/v1/{name=shelves/*}"}, sigs=["name"])
+    q = f.message("GetBookRequest")
+    q.field("name", "string", ref=f"{name}.googleapis.com/Book")
+    s1.rpc("GetBook", P + ".GetBookRequest", P + ".Book", http={"get": "/v1/{name=shelves/*/books/*}"}, sigs=["name"])
+    q = f.message("ListBooksRequest")
+    q.field("parent", "string", child_ref=f"{name}.googleapis.com/Book")
+    q.field("page_size", "int32")
+    q.field("page_token", "string")
+    o = f.message("ListBooksResponse")
+    o.field("books", P + ".Book", repeated=True)
+    o.field("next_page_token", "string")
+    s1.rpc("ListBooks", P + ".ListBooksRequest", P + ".ListBooksResponse", http={"get": "/v1/{parent=shelves/*}/books"}, sigs=["parent"])
+    q = f.message("TagInnerRequest")
+    q.field("name", "string")
+    q.field("inner", P + ".Outer.Inner")          # only the nested type is referenced, not Outer
+    q.field("author", "string", ref=f"{name}.googleapis.com/Author")   # resource reached only through a reference
+    s1.rpc("TagInner", P + ".TagInnerRequest", P + ".Tag", http={"post": "/v1/{name=shelves/*}:tagInner"}, body="*")
+    q = f.message("ImportBooksRequest")
+    q.field("parent", "string")
+    q.field("source", "string")
+    s1.rpc("ImportBooks", P + ".ImportBooksRequest", ".google.longrunning.Operation",
+           http={"post": "/v1/{parent=shelves/*}/books:import"}, body="*", lro=("JobResult", "JobMeta"))
+    q = f.message("PingRequest")
+    q.field("note", "string")
+    s2.rpc("Ping", P + ".PingRequest", ".google.protobuf.Empty", http={"post": "/v1/ping"}, body="*")
+    q = f.message("GrowRequest")
+    q.field("tree", P + ".Tree")
+    q.field("kind", "enum:" + P + ".Outer.Kind")
+    s2.rpc("Grow", P + ".GrowRequest", P + ".Tree", http={"post": "/v1/grow"}, body="*")
+    api.options = ["transport=grpc", "autogen-snippets=false"]
+    api.info.update(pkg=pkg, version=ver, ns=["vp"], name=name, host=f"{name}.googleapis.com")
+    return api
